@@ -3,7 +3,10 @@ src/server/cloud/server.rs through the gated in-memory object store (hook H1).""
 import json
 import os
 import random
+import subprocess
+import time
 
+from vlib import SPEC
 from vlib import (Verdict, build_harness, run_harness, tlc_check, tlc_trace, write_cfg,
                   replay_lines, drop_prefixes, workdir, log, seed, behaviour_at, write_replay,
                   split_behaviours, load_known)
@@ -236,3 +239,79 @@ def salt_race(v, wd, thorough):
     v.evaluations += len(sch)
     log(f"[conform] salt race: {len(sch)} interleavings of concurrent CloudServer::new, "
         f"accepted={rt['accepted']}")
+
+
+# ---------------------------------------------------------------------------------------------
+# CasInd: the add_version compare-and-swap skeleton with an inductive invariant (Apalache)
+APALACHE_OBLIGATIONS = [
+    # (name, --init, --inv, --length)
+    ("init-implies-indinv", "Init", "IndInv", 0),
+    ("indinv-is-inductive", "IndInit", "IndInv", 1),
+    ("indinv-implies-safety", "IndInit", "Safety", 0),
+]
+
+
+def _apalache(wd, name, module_dir, init, inv, length, timeout):
+    out = os.path.join(wd, "apa-" + name)
+    t0 = time.time()
+    try:
+        p = subprocess.run(["timeout", str(timeout), "apalache-mc", "check", f"--init={init}",
+                            f"--inv={inv}", f"--length={length}", f"--out-dir={out}",
+                            "--run-dir=" + os.path.join(out, "run"), "CasInd.tla"],
+                           cwd=module_dir, capture_output=True, text=True)
+        txt = p.stdout + p.stderr
+    except OSError as e:
+        txt = f"cannot run apalache-mc: {e}"
+    res = "error"
+    if "The outcome is: NoError" in txt:
+        res = "holds"
+    elif "The outcome is: Error" in txt and "violated" in txt:
+        res = "violated"
+    with open(os.path.join(wd, "apa-" + name + ".log"), "w") as f:
+        f.write(txt)
+    return {"name": name, "result": res, "wall_s": round(time.time() - t0, 1),
+            "log": os.path.join(wd, "apa-" + name + ".log")}
+
+
+def cas_inductive_start(wd, thorough):
+    """Start the Apalache obligations for CasInd in the background; returns the futures."""
+    from concurrent.futures import ThreadPoolExecutor
+    ex = ThreadPoolExecutor(max_workers=4)
+    good = os.path.join(wd, "casind")
+    blind = os.path.join(wd, "casind-blind")
+    for d in (good, blind):
+        os.makedirs(d, exist_ok=True)
+    src = open(os.path.join(SPEC, "CasInd.tla")).read()
+    assert "\nBlind == FALSE\n" in src
+    open(os.path.join(good, "CasInd.tla"), "w").write(src)
+    open(os.path.join(blind, "CasInd.tla"), "w").write(src.replace("\nBlind == FALSE\n", "\nBlind == TRUE\n"))
+    to = 3000 if thorough else 900
+    futs = [ex.submit(_apalache, wd, n, good, i, inv, k, to) for n, i, inv, k in APALACHE_OBLIGATIONS]
+    futs.append(ex.submit(_apalache, wd, "blind-swap-not-inductive", blind, "IndInit", "IndInv", 1, to))
+    ex.shutdown(wait=False)
+    return futs
+
+
+def cas_inductive_finish(v, wd, futs, thorough):
+    res = [f.result() for f in futs]
+    v.extra["apalache_inductive_invariant"] = {
+        "module": "spec/CasInd.tla (3 clients, 5 ids; unbounded number of steps)", "obligations": res}
+    for r in res:
+        log(f"[apalache] {r['name']}: {r['result']} ({r['wall_s']}s)")
+        if r["name"] == "blind-swap-not-inductive":
+            if r["result"] != "violated":
+                v.tool_errors.append("anti-vacuity: CasInd with an unconditional swap was not refuted "
+                                     f"({r['result']}, see {r['log']})")
+        elif r["result"] == "violated":
+            p = write_replay(v.pid, "casind-" + r["name"],
+                             {"kind": "apalache-counterexample", "obligation": r["name"],
+                              "log": open(r["log"]).read()[-6000:]})
+            v.violations.append((f"specification CasInd: obligation {r['name']} fails", p))
+        elif r["result"] != "holds":
+            v.tool_errors.append(f"apalache obligation {r['name']} did not finish (see {r['log']})")
+    if thorough:
+        # the same module under TLC (smaller bounds): both checkers agree on it
+        cfg = os.path.join(SPEC, "MCCasInd.cfg")
+        r = tlc_check(wd, "casind-tlc", "MCCasInd.tla", cfg, timeout=1500)
+        log(f"[mc] casind-tlc: {r['distinct']} distinct, violated={r['violated']}")
+        v.mc(r)
